@@ -152,6 +152,35 @@ def function_coverage_definitions():
     return out
 
 
+def signed_zero_definition():
+    """atan2 on its branch cut: the sign of a zero input selects +pi or -pi, so a compiled model must not reuse
+    anything computed for +0.0 when it is called with -0.0 (and vice versa)"""
+    sm = {"psi": ["fn2", "atan2", var("vy"), var("vx")],
+          "acc": add(var("acc"), mul(var("dt"), mul(["fn2", "atan2", var("vy"), var("vx")], ["fn2", "atan2", var("vy"), var("vx")]))),
+          "vx": var("vx"), "vy": add(var("vy"), mul(var("dt"), var("u")))}
+    return {"dt": "dt", "state": ["psi", "acc", "vx", "vy"], "control": ["u"], "calibration": [], "state_model": sm,
+            "sensors": {}, "process_noise": {"u": 0.25}, "sensor_noise": {}, "calibration_map": {}, "rational": False}
+
+
+def signed_zero_points():
+    base = {"psi": 0.0, "acc": 0.5, "vx": -1.0}
+    seq = [(0.0, False), (-0.0, True), (0.0, True), (-0.0, True), (0.25, False), (-0.0, True)]
+    return [{"dt": 0.125, "state": dict(base, vy=v), "control": {"u": 0.0}, "branch_cut": bc} for v, bc in seq]
+
+
+def assumption_twin_definition():
+    """r' = a sqrt(1 + b^2 / a^2): equal to sqrt(a^2 + b^2) only for positive a"""
+    r = mul(var("a"), fn("sqrt", add(num(1), mul(powi(var("b"), 2), powi(var("a"), -2)))))
+    sm = {"r": r, "a": add(var("a"), mul(var("dt"), var("u"))), "b": var("b"),
+          "q": mul(var("b"), fn("sqrt", add(num(1), mul(powi(var("a"), 2), powi(var("b"), -2)))))}
+    return {"dt": "dt", "state": ["r", "a", "b", "q"], "control": ["u"], "calibration": [], "state_model": sm,
+            "sensors": {}, "process_noise": {"u": 0.25}, "sensor_noise": {}, "calibration_map": {}, "rational": False}
+
+
+def assumption_twin_points():
+    return [{"dt": 0.125, "state": {"r": 0.0, "a": a, "b": b, "q": 0.0}, "control": {"u": 0.5}} for a, b in ((-3.0, 4.0), (3.0, -4.0), (-0.75, -1.0), (1.5, 2.0))]
+
+
 def function_coverage_points(d):
     pts = []
     for mval, uval in ((-0.25, 0.5), (-1.5, -0.75), (0.75, 1.25)):
@@ -274,6 +303,15 @@ def mass_zva_definition():
     return {"dt": "dt", "state": ["mass", "z", "v", "a"], "control": ["thrust"], "calibration": [], "state_model": sm,
             "sensors": {"simple": {"alt": var("z")}}, "process_noise": {"thrust": 1.0}, "sensor_noise": {"simple": {"alt": 1.0}},
             "calibration_map": {}, "rational": True}
+
+
+def mass_zva_pitot_definition():
+    """the project's example with an additional non-linear sensor (dynamic pressure q = v^2): the sensor Jacobian
+    depends on the estimate, so the posterior covariance depends on where the Jacobian is evaluated"""
+    d = mass_zva_definition()
+    d["sensors"] = {"simple": {"alt": var("z")}, "pitot": {"q": mul(var("v"), var("v"))}}
+    d["sensor_noise"] = {"simple": {"alt": 1.0}, "pitot": {"q": 0.5}}
+    return d
 
 
 def gen_nested_definition(rng, depth=3, with_sensor=True):
